@@ -932,7 +932,12 @@ fn check_if_else(
 ) -> expr::IfElse<Arc<Type>> {
   let condition = Box::new(match expression.condition.as_ref() {
     expr::IfElseCondition::Expression(expr) => {
-      expr::IfElseCondition::Expression(type_check_expression(cx, expr, type_hint::MISSING))
+      let checked = type_check_expression(cx, expr, type_hint::MISSING);
+      // The condition of an if-else must be a bool.
+      let expected_type =
+        Type::Primitive(Reason::new(expr.loc(), Some(expr.loc())), PrimitiveTypeKind::Bool);
+      assignability_check(cx, expr.loc(), checked.type_(), &expected_type);
+      expr::IfElseCondition::Expression(checked)
     }
     expr::IfElseCondition::Guard(p, expr) => {
       let expr = type_check_expression(cx, expr, type_hint::MISSING);
